@@ -20,6 +20,7 @@ struct alw_ctl {
   long failed_index; int failed_kind; /* what was failed */
   int short_read;     /* > 0: every read() delivers at most this many bytes (what pipes, network file systems and signals do) */
   int tight_code;     /* the library-managed code buffer ENDS directly in front of an inaccessible page (its start is then not page aligned), on creation and after every growth: one byte written past the buffer's length faults */
+  long bad_unmap;     /* munmap calls (since the last reset by the harness) whose length reaches beyond the page-rounded length of the region the layer handed out at that address */
   int fill_on; unsigned char fill;    /* every block the library gets from malloc is filled with this byte first (heap memory has no defined content) */
 };
 extern struct alw_ctl alw;
